@@ -112,6 +112,8 @@ def parse_spec(path):
                     cur['keepconst'] = True
                 elif word == 'bodyless':
                     cur['bodyless'] = True
+                elif word == 'bodylessA':
+                    cur['bodylessA'] = True
                 elif word in ('A', 'B', 'proof', 'proofA', 'proofB'):
                     sec = word
                     if word == 'B':
@@ -580,6 +582,8 @@ class Weaver:
         spec_lines = it['A'] if (self.mode in ('A', 'P') or it['B'] is None) else it['B']
         sec_used = 'A' if (self.mode in ('A', 'P') or it['B'] is None) else 'B'
         proof = list(it['proof']) + (it['proofA'] if self.mode in ('A', 'P') else it['proofB'])
+        if it.get('bodylessA') and self.mode in ('A', 'P'):
+            it = dict(it, bodyless=True)
         if it.get('bodyless'):
             body = '{ unimplemented!() }'
             head = '#[verifier::external_body]\n    ' + head
